@@ -140,7 +140,7 @@ func checkC05(e *Env) {
 		return ""
 	})
 	// the concurrent flavour of this monitor (C12 is the full treatment)
-	concCalls := e.concurrentSmoke(drv, "C05", e.smokePool("C05", "enc"), e.pick(2, 12), e.pick(300, 1500), e.smokeEncDecode())
+	concCalls := e.concurrentSmoke(drv, "C05", e.smokePool("C05", "enc"), e.pick(8, 32), e.pick(300, 1500), e.smokeEncDecode())
 
 	// every single-bit flip must change the mnemonic
 	flipsCompared := 0
